@@ -396,6 +396,11 @@ type c08val struct {
 
 type C08 struct {
 	vals map[string]*c08val
+	// lastW / unspecified: once governance has changed the window size in the middle of a history the statement no
+	// longer says what the window of a validator contains (DESIGN §7); from then on only the clause that does not
+	// depend on the window's content is judged: a downtime jailing leaves no missed entry and a zero counter behind
+	lastW       int64
+	unspecified bool
 }
 
 func NewC08() *C08 { return &C08{vals: map[string]*c08val{}} }
@@ -433,6 +438,32 @@ func (m *C08) OnCall(e *sim.Env, c *sim.Call) {
 		if se.Reason == "missing_signature" {
 			slashed[se.Addr] = true
 		}
+	}
+	if m.lastW != 0 && m.lastW != W && !m.unspecified {
+		m.unspecified = true
+		e.Count("c08.histories_with_window_changes")
+	}
+	m.lastW = W
+	for a := range slashed {
+		// jailing clears the window, whatever size it has or had
+		qv, ok := post.Vals[a]
+		ps := post.Sign[a]
+		if !ok || !qv.Jailed || ps == nil {
+			continue
+		}
+		e.Count("c08.jailings_window_cleared_checked")
+		left := 0
+		for _, b := range post.MissedBits[a] {
+			if b {
+				left++
+			}
+		}
+		if left != 0 || ps.Missed != 0 {
+			e.Violate("C08", "window-not-cleared-at-jailing", fmt.Sprintf("BeginBlock@%d validator %s was jailed for downtime; %d missed entries and a counter of %d remain (window %d, changed earlier in this history: %v)", c.H, a, left, ps.Missed, W, m.unspecified), c)
+		}
+	}
+	if m.unspecified {
+		return
 	}
 	for _, vt := range c.Entry.Begin.Votes {
 		a := vt.Addr
